@@ -3,4 +3,4 @@ import chainlib, chaintrace
 
 def run(tier):
     return chainlib.run_family("C04", tier, "Chain_subs.cfg", "Chain_subs_edges.cfg",
-                               {"quick": (1, 5), "thorough": (5, 6)}, extra=chaintrace.leg_t("C04"))
+                               {"quick": (1, 5), "thorough": (5, 6)}, extra=chaintrace.leg_t("C04"), live_cfg="Chain_subs_live.cfg")
